@@ -9,7 +9,8 @@ import Nstd.Avl.LemmasInvariance
   leaves the state unchanged).  `Reach multi s` additionally closes the reachable states under
   copy assignment and bulk insert between two Maps.  `abs s` is the in-order sequence of
   keys/values of the tree; `iter_run` shows it is what iteration `begin()…end()` yields.
-  All theorems quantify over every history, i.e. over every reachable tree shape; keys are `Int`.
+  All theorems quantify over every history, i.e. over every reachable tree shape; keys are `Int`
+  (PropsK.lean: any strictly totally ordered key type).
 
   The exact item ids / free-list order are modelled and compared with the real code by the
   thorough correspondence run (white-box dump); the theorems only need them distinct.  Out of scope of C01: self-assignment, copies of MultiMap
@@ -407,12 +408,11 @@ theorem multi_insert_stable (ops : List Op) (k v : Int) :
 /-
   OPEN (not proved; stated here so that nobody reads more into the theorems above):
 
-  * Keys are `Int`.  The generalisation "for every key type whose `<`/`>` form a strict total
-    order" (DESIGN.md C01/X) is not stated: the model is monomorphic.  `order_invariance` proves
-    the crux (results depend only on the relative order of the keys, for every order embedding
-    `Int → Int`); what is missing is a `K`-typed copy of the model and the (classical) fact that the
-    finitely many keys of a history embed monotonically into `Int`.
-       theorem find_cost_log_any_order {K} [LinearOrder K] … : (analogue of find_cost_log)
+  * Keys are `Int` in this file.  PropsK.lean lifts the model to any key type with a lawful strict
+    total order and proves `G.transfer` (a generic run is the `Int` run of the relabelled history),
+    `G.transfer_out`, `G.find_cost_log`, `G.height_log`, `G.sorted_map/multi`, `G.int_instance`.
+    Not restated over `K`: the refinement to the sorted-list specification (`refines_rel` …); it
+    follows for the relabelled history from the two transfer theorems.
   * The free-list discipline (LIFO reuse of item addresses, blocks of 4) is modelled (`St.alloc`,
     invariant: ids distinct and disjoint from the free list); which id an insert reuses is not
     the subject of a theorem (compared with the real code in the thorough tier).
